@@ -5,7 +5,7 @@
 #include <math.h>
 
 #define PAGE 4096
-#define DATA_PAGES 16
+#define DATA_PAGES 64
 static unsigned char *region, *data_lo, *data_hi;
 static void region_init(void)
 {
@@ -105,7 +105,7 @@ static void failinject(cJSON *t, int fmt, int cfg)
 static int do_case(const jv *line)
 {
     const jv *tb = jv_at(line, 3); int fmt = (int)jv_int(jv_at(line, 2)); long thr = jv_int(jv_at(line, 4));
-    char expect[2048]; size_t L = tb->n, k; cJSON *t; int cfg; char *ref_text = NULL; uint64_t h0;
+    static char expect[1 << 20]; size_t L = tb->n, k; cJSON *t; int cfg; char *ref_text = NULL; uint64_t h0;
     if (L + 1 > sizeof(expect)) return -1;
     for (k = 0; k < L; k++) expect[k] = (char)jv_int(tb->e[k]);
     expect[L] = 0;
@@ -124,7 +124,8 @@ static int do_case(const jv *line)
         if (s && !ref_text) ref_text = strdup(s);
         if (s && ref_text && strcmp(s, ref_text)) viol("C04", "printed text depends on the allocator configuration");
         cJSON_free(s);
-        for (pre = 0; pre <= (long)L + 3; pre++) {
+        for (pre = 0; pre <= (long)L + 3; pre += (L > 20000 && pre > 300 && pre < (long)L - 4) ? ((pre > 65000 && pre < 66000) ? 97 : 4099) : (L > 200 && pre > 4 && pre < (long)L - 4) ? 7 : 1) {
+            vd_tick();
 #ifdef VD_ASAN
             if (pre == 0 && cfg == 0) continue;   /* growing a zero-byte buffer by hand copies one byte out of it; not part of any listed property */
 #endif
@@ -133,6 +134,13 @@ static int do_case(const jv *line)
             else if (ref_text && strcmp(s, ref_text)) viol("C05", "cJSON_PrintBuffered(prebuffer %ld, allocator config %d) returns different bytes than cJSON_Print%s: %s", pre, cfg, fmt ? "" : "Unformatted", s);
             cJSON_free(s);
         }
+        { static const long extra[] = { 64, 255, 256, 257, 1000, 4095, 4096, 4097, 5000, 16384, 70000 }; size_t e;
+          for (e = 0; e < sizeof(extra) / sizeof(extra[0]); e++) {      /* far more room than needed: nothing may be cut off */
+              al_window(0); s = cJSON_PrintBuffered(t, (int)((long)L + extra[e]), fmt); print_calls++;
+              if (!s) viol("C04 C05", "cJSON_PrintBuffered(prebuffer %ld) returned NULL", (long)L + extra[e]);
+              else if (ref_text && strcmp(s, ref_text)) viol("C04 C05", "cJSON_PrintBuffered(prebuffer = text length + %ld, allocator config %d) returns different bytes than cJSON_Print%s: %.80s", extra[e], cfg, fmt ? "" : "Unformatted", s);
+              cJSON_free(s);
+          } }
         if (cJSON_PrintBuffered(t, -1, fmt) != NULL) viol("C05", "cJSON_PrintBuffered with a negative prebuffer returned a buffer");
         al_in_call = 0;
         if (al_live != live0) viol("C04", "printing (allocator config %d) leaves %ld block(s) allocated after the texts were released", cfg, al_live - live0);
@@ -155,7 +163,8 @@ static int do_case(const jv *line)
     /* caller buffer of every size (C09) */
     if (ref_text) {
         long n, prev_ok = 0; size_t RL = strlen(ref_text);
-        for (n = 0; n <= (long)RL + 16; n++) {
+        for (n = 0; n <= (long)RL + 16; n += (RL > 20000 && n > 300 && n < (long)RL - 24) ? 8191 : (RL > 200 && n > 4 && n < (long)RL - 24) ? 13 : 1) {
+            vd_tick();
             unsigned char *buf = data_hi - n; int r; long i;
             memset(data_lo, 0xEE, DATA_PAGES * PAGE);
             if (!VD_TRY()) { al_in_call = 0; viol("*", "cJSON_PrintPreallocated(n = %ld, text length %zu): memory fault at %p (buffer %p..%p)", n, RL, (void*)vd_fault_addr, (void*)buf, (void*)data_hi); break; }
@@ -168,7 +177,7 @@ static int do_case(const jv *line)
                 if (n < (long)RL + 1 || memchr(buf, 0, (size_t)n) == NULL || strcmp((char*)buf, ref_text)) viol("C09", "cJSON_PrintPreallocated(n = %ld) returned true but the buffer does not hold the complete terminated text", n);
             } else {
                 if (n >= (long)RL + 6) viol("C09", "cJSON_PrintPreallocated(n = %ld) failed although the text with terminator needs %zu bytes", n, RL + 1);
-                if (prev_ok) viol("C09", "cJSON_PrintPreallocated succeeds with %ld bytes but fails with %ld", n - 1, n);
+                if (prev_ok) viol("C09", "cJSON_PrintPreallocated succeeds with fewer bytes but fails with %ld", n);
             }
             if ((r != 0) != (n >= thr)) VD.drift++;
             prev_ok = r;
